@@ -32,7 +32,7 @@ def strategy(tier, shard, nshards):
     step = st.one_of(
         G.step_select(n), G.step_append(n), G.step_store(n, True, recent=True), G.step_store(n, True, recent=True), G.step_store(n, True, recent=True),
         G.step_store(n, True), G.step_fetch(n, True), G.step_fetch(n, True), G.step_copy(n), G.step_noop(n), G.step_noop(n), G.step_idle(n),
-        G.step_deliver(), G.step_expunge(n, True), G.step_expunge(n, True), G.step_unselect(n), G.step_advance(), G.step_advance(),
+        G.step_deliver(), G.step_expunge(n, True), G.step_expunge(n, True), G.step_unselect(n), G.step_advance(), G.step_advance(), G.steps_toggle(n), G.steps_toggle(n),
     )
     mx = 20 if tier == "quick" else 30
     return st.fixed_dictionaries(
@@ -41,7 +41,7 @@ def strategy(tier, shard, nshards):
             "profile": st.just("alias" if shard % 2 else "plain"),
             "prefill": st.integers(2, 5),
             "presel": st.integers(0, 1).flatmap(lambda a: st.tuples(st.just(a), st.sampled_from([a, a, a, 1 - a, None]))),
-            "steps": st.lists(step, min_size=8, max_size=mx),
+            "steps": st.lists(step, min_size=8, max_size=mx).map(G.flatten),
             "pack_limit": st.sampled_from([None, None, 3, 4]),
         }
     )
